@@ -49,9 +49,11 @@ Definition seg_of (it : item) : str := fst it ++ ">" :: escape (snd it).
 Definition spell (lead : str) (items : list item) : str :=
   escape lead ++ flat_map (fun it => "<" :: seg_of it) items.
 
+(* character data must not contain the CDATA end marker *)
+Definition CDEND : str := lit "]]>".
 Definition lex_item (seg : str) : option item :=
   match split_once ">" seg with
-  | Some (tag, txt) => omap (pair tag) (unescape txt)
+  | Some (tag, txt) => if contains CDEND txt then None else omap (pair tag) (unescape txt)
   | None => None
   end.
 Definition lex (s : str) : option (str * list item) :=
@@ -80,10 +82,19 @@ Proof.
     apply IH; [exact Hrest | now apply seg_no_lt].
 Qed.
 
+Lemma no_gt_no_cdend s : has ">" s = false -> contains CDEND s = false.
+Proof.
+  induction s as [|c r IH]; intros H; [reflexivity|]. cbn [has] in H. apply orb_false_iff in H as [Hc Hr].
+  cbn [contains]. rewrite (IH Hr), orb_false_r. unfold CDEND. change (lit "]]>") with ["]"; "]"; ">"].
+  cbn [starts_with]. destruct r as [|d [|e r']]; cbn [starts_with]; rewrite ?andb_false_r; try reflexivity.
+  cbn [has] in Hr. apply orb_false_iff in Hr as [_ Hr]. apply orb_false_iff in Hr as [He _].
+  destruct (Ascii.eqb_spec ">" e) as [<-|Hne]; [rewrite Ascii.eqb_refl in He; discriminate|]. now rewrite !andb_false_r.
+Qed.
 Lemma lex_item_seg it : tag_ok (fst it) = true -> lex_item (seg_of it) = Some it.
 Proof.
   unfold tag_ok, lex_item, seg_of. intros H. apply andb_true_iff in H as [_ H2]. apply negb_true_iff in H2.
-  rewrite split_once_app by exact H2. rewrite unescape_escape. now destruct it.
+  rewrite split_once_app by exact H2. rewrite no_gt_no_cdend by (apply escape_clean; auto).
+  rewrite unescape_escape. now destruct it.
 Qed.
 
 Theorem lex_spell lead items : forallb (fun it => tag_ok (fst it)) items = true ->
